@@ -191,6 +191,20 @@ fn calls_of(_rt: &RTCell<W, R, T>) -> u64 {
 }
 
 #[cfg(xray_verif)]
+fn clog_start() {
+    xray::verif_cell_log::start()
+}
+#[cfg(not(xray_verif))]
+fn clog_start() {}
+#[cfg(xray_verif)]
+fn clog_take() -> Vec<String> {
+    xray::verif_cell_log::take()
+}
+#[cfg(not(xray_verif))]
+fn clog_take() -> Vec<String> {
+    Vec::new()
+}
+#[cfg(xray_verif)]
 fn alog_start() {
     xray::runtime::verif_alloc_log::start()
 }
@@ -226,11 +240,19 @@ fn run_job(job: &Value) -> Value {
     let twice = job.get("twice").and_then(|s| s.as_bool()).unwrap_or(false);
 
     // ---- compile
+    // "cell_log": what into_static_ud did with the cells of every scope closed while THIS text was compiled
+    let want_clog = job.get("cell_log").and_then(|s| s.as_bool()).unwrap_or(false);
     let compiled = catch_unwind(AssertUnwindSafe(|| {
         let mut cs = std_compilation_scope::<W, R, T>();
+        if want_clog {
+            clog_start();
+        }
         let r = cs.feed_file(src).map_err(|e| format!("{e}"));
         (cs, r)
     }));
+    if want_clog {
+        out.insert("cell_log".into(), json!(clog_take()));
+    }
     let (cs, cres) = match compiled {
         Err(_) => {
             out.insert(
